@@ -92,6 +92,17 @@ def _logic_extras(case, rec):
             seen.pop(_n, None)
             seen[_n] = len(seen)
         extra[t.marker] = _a
+    # entry markers are order-sensitive too: the order in which states are (re-)entered - e.g. the
+    # leaves a deep history restores - ends up in the context
+    for n in gen.action_names(case.plan):
+        if n.startswith("en.") and n.endswith(".a") and n not in extra:
+            def _e(interp, ctx, event, action_def, _n=n):
+                rec.log.append(("act", _n, event, config_of(interp), 0))
+                order = ctx.setdefault("entered", [])
+                order.append(_n[3:-2])
+                if len(order) > 8:
+                    del order[0]
+            extra[n] = _e
     return extra
 
 
